@@ -64,7 +64,7 @@ func specsBase() []*Spec {
 		},
 		{
 			ID:     "C17",
-			Units:  []Unit{{Pkg: "", Job: "C17", Quick: []string{"default", "force32bit"}, Thorough: []string{"default", "force32bit", "386"}}},
+			Units:  []Unit{{Pkg: "", Job: "C17", Quick: []string{"default", "force32bit", "386"}, Thorough: []string{"default", "force32bit", "386"}}},
 			Rule:   "E1: the multi-scalar routine called directly on heaps filled as VerifyBatch fills them (count 2n+1; quick n in {4..8,33,63,64}, thorough every n in 4..64) x 20 scalar profiles (hash-like, r=0/1/equal/one-nonzero/first-zero/max, S in top slice, common factors 2,3,4,6,8,2^64,3*2^100 so that the final Bos-Coster scalar is > 1, 56/112/168-bit maxima, 2^127, L-1) x point profiles (honest, same point, P/-P pairs, identity, mixed-order, all torsion) vs sum [s_i]P_i computed by the model through known discrete logs; E2: all sequences of <= 3 chunk sizes from {4,5,63,64} on one reused heap vs a fresh heap; vartime helpers on all pairs of limb-boundary values for every admissible limbSize vs big.Int; end to end with the fallback hook: all-valid batches of sizes 4..200 (quick: 32 sizes around chunk boundaries) x 4 compositions x 3 variants x entropy {zero, 4 DRBG, 0xff, const}: accepted with zero fallbacks (degenerate constant streams reported, not required). non-trivial = collection not all-zero.",
 			Assume: append(trusted, "points are supplied through UnpackVartime and read back through Pack (decided by C10)"),
 		},
@@ -76,13 +76,13 @@ func specsBase() []*Spec {
 		},
 		{
 			ID:     "C11",
-			Units:  []Unit{{Pkg: "extra/x25519", Job: "C11", Quick: []string{"default", "noasm", "force32bit"}, Thorough: allCfg}},
+			Units:  []Unit{{Pkg: "extra/x25519", Job: "C11", Quick: []string{"default", "noasm", "force32bit", "386"}, Thorough: allCfg}},
 			Rule:   "E1 enumeration, fast path: nibble-pattern scalar alphabet NIB (every one of 16 digit values at each of 64 radix-16 positions over fills {0,7,8,9,15}; runs of 7/8/9/15 of every length at every start; quick: reduced fills/values/runs), all 8 low-3-bit x 4 top-2-bit patterns on 3 bases, boundary scalars (0,1,L-1,L,L+1,8L,2^254,2^255-8,2^255-1,2^255,2^256-1,...), 64 clamped secret scalars: X25519(s,Basepoint) == ScalarBaseMult == ScalarMult(s,9) == X25519(s,copy of 9) == RFC 7748 ladder of the model (== crypto/ecdh where it accepts the scalar). Generic path: 7 low-order u values (+p, bit 255 set), u in 2..20, 2^255-20..2^255-1, 2^k, 2^k-1, 16 hash-derived u x 4 scalars: value == model, error and nil output iff the result is all-zero. Chains of 40 iterated calls. Lengths are covered by C13.",
 			Assume: trusted,
 		},
 		{
 			ID:     "C12",
-			Units:  []Unit{{Pkg: "extra/x25519", Job: "C12", Quick: []string{"default", "force32bit"}, Thorough: []string{"default", "force32bit", "386"}}},
+			Units:  []Unit{{Pkg: "extra/x25519", Job: "C12", Quick: []string{"default", "force32bit", "386"}, Thorough: []string{"default", "force32bit", "386", "noasm+appengine"}}},
 			Rule:   "E1 enumeration: seeds LE32(0..n-1)+0xff..ff (quick 64, thorough 4096): X25519(EdPrivateKeyToX25519(k), Basepoint) == EdPublicKeyToX25519(k.Public()) == model (ladder and Edwards map both), private conversion == clamp(SHA-512(seed)[:32]); public-key strings: every y in [0,2^14) (thorough 2^18) x sign, the 2^9 (2^12) largest 255-bit y (includes all 19 y >= p), 2^k and 2^k+-1, p+-{0,1,2}: result == canonical (1+y)/(1-y), zero for y = 1, failure flag exactly for undecodable strings. non-trivial = decodable string or seed case.",
 			Assume: trusted,
 		},
@@ -100,8 +100,8 @@ func specsBase() []*Spec {
 		},
 		{
 			ID: "C10",
-			Units: []Unit{{Pkg: "internal/ge25519", Job: "C10", Quick: []string{"default", "force32bit"}, Thorough: []string{"default", "force32bit", "386", "noasm+appengine"}},
-				{Pkg: "extra/x25519", Job: "C10x", Quick: []string{"default", "force32bit"}, Thorough: []string{"default", "force32bit", "386"}}},
+			Units: []Unit{{Pkg: "internal/ge25519", Job: "C10", Quick: []string{"default", "force32bit", "386"}, Thorough: []string{"default", "force32bit", "386", "noasm+appengine"}},
+				{Pkg: "extra/x25519", Job: "C10x", Quick: []string{"default", "force32bit", "386"}, Thorough: []string{"default", "force32bit", "386"}}},
 			Rule:   "E1 enumeration: every y in [0,2^14) (thorough 2^18) x sign bit; the 2^9 (2^12) largest 255-bit y x sign (all 19 y >= p included); 2^k, 2^k+-1 for k < 255 x sign; public keys of 64 seeds. For each string: decodability == Euler criterion of the model, Pack(UnpackVartime(s)) == canonical encoding of the model's point, UnpackNegativeVartime gives the negation, Z = 1 and T = XY, decode-encode-decode is stable; both square-root branches (candidate root / root times sqrt(-1)), x = 0 and y >= p classes must be non-empty. Pack of non-normalised representations: 8 torsion + 26 (thorough 502) points x Z in {1,2,p-1,2^255-20,a0,19}. non-trivial = decodable string or Pack case. The Ed25519-to-X25519 public-key conversion is run on the same string alphabet (job C10x): it must accept exactly the decodable strings and return the canonical (1+y)/(1-y).",
 			Assume: append(trusted, "field Contract/Expand as decided by C18"),
 		},
